@@ -82,7 +82,12 @@ pub fn instantiate(
 
     let config = Config {
         stages: msg.stages.clone(),
-        num_members: msg.members.iter().map(|m| m.len() as u32).sum(),
+        num_members: msg
+            .members
+            .iter()
+            .take(msg.stages.len())
+            .map(|m| m.len() as u32)
+            .sum(),
         member_limit: msg.member_limit,
     };
     CONFIG.save(deps.storage, &config)?;
